@@ -10,7 +10,7 @@ import cssutils
 from checks.c03_roundtrip import LOSSLESS, Prefs, drop_empty, flatten_nested_comments
 from vlib import cssmodel as A
 from vlib import project as P
-from vlib.runner import VERIF, Sub, Violation, frame_sig
+from vlib.runner import VERIF, Sub, Violation, frame_sig, lib
 
 PROPERTY = 'C08'
 RULE = (
@@ -25,7 +25,10 @@ RULE = (
     'over Latin-1 / Cyrillic / CJK / astral / NBSP / U+2028 / lone-surrogate and other hex escapes into class, id, type, string, url, '
     'comment, attribute value, font family, property name, at-keyword, @import, @namespace, @media comment and page name positions x '
     'sheet.encoding = ascii / latin-1 / koi8-r / shift_jis / utf-8 / utf-16 / cp1252: encoding equals the @charset rule, '
-    'cssText decodes in it, reparses to the same projection, nothing raises. Non-trivial: two sources of encoding '
+    'cssText decodes in it, reparses to the same projection, nothing raises. boms: five sheets (non-ASCII strings, @import, comment, '
+    '@namespace, @media) encoded with each of the five byte order marks (UTF-8, UTF-16 LE/BE, UTF-32 LE/BE) entering through '
+    'parseString(bytes), parseUrl, parseFile and as an @import target of a sheet with and without its own @charset: the rules must be '
+    'those of the text, the reported encoding must equal the @charset rule, the serialisation must reparse to the same rules. Non-trivial: two sources of encoding '
     'information disagree, the chain has depth >= 2, or the content has a character outside the target encoding; distinct '
     'by row / (DOM, encoding).'
 )
@@ -452,3 +455,86 @@ def check_listed(case, ctx):
 
 
 SUBS.append(Sub('listed', check_listed, enumerate=listed_cases, shards_quick=1, shards_thorough=1))
+
+
+# --------------------------------------------------------------------------- every byte order mark, through every way bytes enter
+
+BOM_FLAVOURS = {
+    'utf-8': (codecs.BOM_UTF8, 'utf-8', 'utf-8'),
+    'utf-16-le': (codecs.BOM_UTF16_LE, 'utf-16-le', 'utf-16'),
+    'utf-16-be': (codecs.BOM_UTF16_BE, 'utf-16-be', 'utf-16'),
+    'utf-32-le': (codecs.BOM_UTF32_LE, 'utf-32-le', 'utf-32'),
+    'utf-32-be': (codecs.BOM_UTF32_BE, 'utf-32-be', 'utf-32'),
+}
+BOM_BODIES = ['a { content: "\xe4€" }', '@import "leaf.css"; a { content: "\xe4" }', '/* Ж */ a { content: "中" } b { top: 0 }',
+              '@namespace p "http://p.example/\xe9"; p|a { top: 0 }', '@media print { a { content: "\xdf" } }']
+
+
+def bom_cases(tier):
+    for flavour in sorted(BOM_FLAVOURS):
+        for entry in ('parseString', 'parseUrl', 'import', 'parseFile'):
+            for parent in ('none', 'charset:koi8-r'):
+                for body in range(len(BOM_BODIES)):
+                    if parent != 'none' and entry != 'import':
+                        continue
+                    yield {'flavour': flavour, 'entry': entry, 'parent': parent, 'body': body}
+
+
+def check_bom(case, ctx):
+    bom, enc, family = BOM_FLAVOURS[case['flavour']]
+    text = BOM_BODIES[case['body']]
+    data = bom + text.encode(enc)
+    leaf = 'leaf { left: 0 }'
+
+    def fetcher(url):
+        if url.endswith('leaf.css'):
+            return None, leaf
+        if url.endswith('target.css'):
+            return None, data
+        return None
+
+    saved = cssutils.log.raiseExceptions
+    cssutils.log.raiseExceptions = False
+    try:
+        with lib('bom-entry'):
+            p = cssutils.CSSParser(fetcher=fetcher)
+            ref = cssutils.CSSParser(fetcher=fetcher).parseString(text, href='http://h/target.css')
+            if case['entry'] == 'parseString':
+                sheet = p.parseString(data, href='http://h/target.css')
+            elif case['entry'] == 'parseUrl':
+                sheet = p.parseUrl('http://h/target.css')
+            elif case['entry'] == 'parseFile':
+                with tempfile.TemporaryDirectory() as d:
+                    fn = os.path.join(d, 'target.css')
+                    with open(fn, 'wb') as f:
+                        f.write(data)
+                    sheet = p.parseFile(fn, href='http://h/target.css')
+            else:
+                head = '@charset "koi8-r";' if case['parent'] != 'none' else ''
+                top = p.parseString(head + '@import "target.css";', href='http://h/main.css')
+                rules = [r for r in top.cssRules if r.type == r.IMPORT_RULE]
+                sheet = rules[0].styleSheet if rules else None
+            if sheet is None:
+                raise Violation('bom:sheet-missing', f'{case}')
+            got = [(r.type, r.cssText if r.type != r.IMPORT_RULE else r.href) for r in sheet.cssRules if r.type != r.CHARSET_RULE]
+            want = [(r.type, r.cssText if r.type != r.IMPORT_RULE else r.href) for r in ref.cssRules]
+            if got != want:
+                raise Violation('bom:content-differs-from-the-text', f'{case}: rules {got} from the bytes, {want} from the text')
+            if case['entry'] == 'import' and canon(sheet.encoding) not in (canon(family), canon(enc)):
+                raise Violation('bom:reported-encoding', f'{case}: {sheet.encoding!r}')
+            crule = sheet.cssRules[0] if sheet.cssRules.length and sheet.cssRules[0].type == sheet.cssRules[0].CHARSET_RULE else None
+            if canon(sheet.encoding) != canon(crule.encoding if crule is not None else 'utf-8'):
+                raise Violation('bom:encoding-differs-from-charset-rule', f'{case}: {sheet.encoding!r} vs rule {crule and crule.encoding!r}')
+            out = sheet.cssText
+            back = cssutils.CSSParser(fetcher=fetcher).parseString(out, href='http://h/target.css')
+            got2 = [(r.type, r.cssText if r.type != r.IMPORT_RULE else r.href) for r in back.cssRules if r.type != r.CHARSET_RULE]
+            if got2 != want:
+                raise Violation('bom:serialisation-not-lossless', f'{case}: {out[:120]!r} -> {got2}')
+    finally:
+        cssutils.log.raiseExceptions = saved
+    ctx.event('bom:' + case['flavour'])
+    ctx.event('entry:' + case['entry'])
+    ctx.case([case['flavour'], case['entry'], case['parent'], case['body']], True, {'case': case, 'bytes': data[:40].hex()})
+
+
+SUBS.append(Sub('boms', check_bom, enumerate=bom_cases, shards_quick=4, shards_thorough=4))
